@@ -41,6 +41,10 @@ Programs ==
      tti    |-> [cfg |-> Cf(2, None, 1, FALSE), progs |-> <<<<I(1,1,1), G(1), ADV(1)>>, <<I(2,1,1), G(1), SY>>>>],
      three  |-> [cfg |-> Cf(1, None, None, FALSE), progs |-> <<<<I(1,1,1)>>, <<I(2,1,1), G(1)>>, <<X(1), G(1)>>>>],
      three2 |-> [cfg |-> Cf(2, None, None, FALSE), progs |-> <<<<I(1,1,1), G(2)>>, <<I(2,1,2), G(1)>>, <<I(3,1,1), SY>>>>],
+     ttix   |-> [cfg |-> Cf(2, None, 2, FALSE),
+                 progs |-> <<<<I(1,1,1), SY, ADV(1), G(1), ADV(1), X(1), SY, G(1)>>, <<G(1)>>>>],
+     grow   |-> [cfg |-> Cf(2, None, None, TRUE),
+                 progs |-> <<<<IW(1,1,1,1), SY, IW(1,3,1,3), SY>>, <<IW(2,1,1,1), G(1)>>>>],
      burst  |-> [cfg |-> Cf(1, None, None, FALSE), progs |-> <<<<I(1,1,1), I(1,2,2), I(1,3,1), I(1,4,2)>>, <<ADV(1), G(1), G(2)>>>>]]
 
 P == Programs[Prog]
